@@ -12,7 +12,7 @@ import (
 // C01 — encode then decode returns the original value.
 
 func c01Cfg() core.GenCfg {
-	return core.GenCfg{Holder: true, Extras: true, BigIDs: true, Spellings: true, Twins: true, BinaryPtr: true, NamedRefs: namedRefs()}
+	return core.GenCfg{Holder: true, Extras: true, BigIDs: true, Spellings: true, Twins: true, BinaryPtr: true, NamedRefs: namedRefs(), Huge: true}
 }
 
 func genTV(cfg core.GenCfg) func(t *rapid.T) TV {
